@@ -18,7 +18,7 @@ use eyre::WrapErr;
 
 use crate::{
     component::ExecResult,
-    components::{initialization, mutation, replacement, selection},
+    components::{boundary, initialization, mutation, replacement, selection, utils},
     conditions::Condition,
     configuration::Configuration,
     heuristics::ls,
@@ -56,9 +56,16 @@ where
         .do_(ils::<P, Global>(
             Parameters {
                 perturbation: mutation::PartialRandomSpread::new_full(),
-                ls: ls::real_ls::<P>(ls_params, ls_condition)
-                    .wrap_err("failed to construct local search")?
-                    .into_inner(),
+                // Only the local search loop: the complete `real_ls` configuration would
+                // initialize (and leave behind) a new random population on every iteration.
+                ls: ls::ls::<P, Global>(
+                    ls::Parameters {
+                        num_neighbors: ls_params.n_neighbors,
+                        neighbors: mutation::NormalMutation::new_dev(ls_params.deviation),
+                        constraints: boundary::Saturation::new(),
+                    },
+                    ls_condition,
+                ),
             },
             condition,
         ))
@@ -93,9 +100,17 @@ where
         .do_(ils::<P, Global>(
             Parameters {
                 perturbation: <mutation::ScrambleMutation>::new_full(),
-                ls: ls::permutation_ls::<P>(ls_params, ls_condition)
-                    .wrap_err("failed to construct local search")?
-                    .into_inner(),
+                // Only the local search loop: the complete `permutation_ls` configuration would
+                // initialize (and leave behind) a new random population on every iteration.
+                ls: ls::ls::<P, Global>(
+                    ls::Parameters {
+                        num_neighbors: ls_params.num_neighbors,
+                        neighbors: mutation::SwapMutation::new(ls_params.num_swap)
+                            .wrap_err("failed to construct local search")?,
+                        constraints: utils::Noop::new(),
+                    },
+                    ls_condition,
+                ),
             },
             condition,
         ))
